@@ -9,7 +9,7 @@ from ..core import R, dec_arr, dec_list, drive_enum, drive_hypothesis, enc_list
 
 PROP = "C18"
 RULE = ("Generator: rasters <= 10x10 (int/float dtypes, NaN cells, C/F/view layouts, asc/desc fractional coords, attrs), "
-        "exclusion lists default (nan,), [0], [nan,0], [-1,2.5]; crop: zones raster + id list + values raster; plus every 0/1 keep-mask "
+        "exclusion lists default (nan,), [0], [nan,0], [-1,2.5] and any ordering of 1-4 values out of {nan,0,-1,2.5,9,1,3}; crop: zones raster + id list + values raster; plus every 0/1 keep-mask "
         "of the enumerated grid shapes. Oracle: bounding box of kept cells (NaN matches NaN); result must equal raster[top:bottom+1,left:right+1] "
         "in cells, coordinate labels, dims, attrs. Non-trivial: the window is strictly smaller than the raster on >= 1 side; "
         "distinct by SHA-1 of the case (random) or enumeration index (masks).")
@@ -60,7 +60,7 @@ def body_trim(case, ctx):
     ras = S.mk_da(case["raster"], ycoord=case.get("y"), xcoord=case.get("x"), attrs=case.get("attrs"),
                   layout=case.get("layout", "C"))
     before = ras.copy(deep=True)
-    excl_spec = EXCL[case["excl"]]
+    excl_spec = case["excl_list"] if case.get("excl_list") else EXCL[case["excl"]]
     excl = [float("nan")] if excl_spec is None else dec_list(excl_spec)
     a = np.asarray(ras.data)
     keep = ~_match(a, excl)
@@ -70,6 +70,11 @@ def body_trim(case, ctx):
         return r  # outside the domain (nothing kept); generators avoid it
     t, b, l, rr = _bbox(keep)
     r.nt = (t > 0) or (l > 0) or (b < a.shape[0] - 1) or (rr < a.shape[1] - 1)
+    if case.get("excl_list"):
+        fin = [e for e in excl if e == e]
+        r.label("excl_len=%d" % len(excl), "excl_sorted" if fin == sorted(fin) else "excl_unsorted")
+        if len(excl) >= 3 and excl[0] == excl[0] and excl[-1] == excl[-1] and len(fin) < len(excl):
+            r.label("excl_nan_in_the_middle")
     r.label("excl=" + case["excl"], "dtype=" + str(a.dtype),
             "borders_touched=%d" % sum([t == 0, l == 0, b == a.shape[0] - 1, rr == a.shape[1] - 1]))
     if a.shape[0] == 1 or a.shape[1] == 1:
@@ -111,11 +116,18 @@ BODIES = {"trim": body_trim, "crop": body_crop}
 @st.composite
 def trim_cases(draw, max_side):
     h, w = draw(S.shapes(1, max_side))
-    excl_name = draw(st.sampled_from(list(EXCL)))
+    excl_name = draw(st.sampled_from(list(EXCL) + ["list"] * 4))
     dtype = draw(st.sampled_from(["float64", "float32", "int32", "int64", "int16", "uint8"]))
     is_f = dtype.startswith("float")
+    excl_list = None
     # values: the excluded values themselves (often) plus others
-    if excl_name in ("default", "nan"):
+    if excl_name == "list":
+        # any homogeneous (all-float) list of 1-4 distinct values in any order, NaN anywhere in it
+        excl_list = draw(st.permutations(["nan", 0.0, -1.0, 2.5, 9.0, 1.0, 3.0]))[:draw(st.integers(1, 4))]
+        exv = [e if e == "nan" or e != int(e) else int(e) for e in excl_list]
+        if not is_f:
+            exv = [e for e in exv if isinstance(e, int)]
+    elif excl_name in ("default", "nan"):
         exv = ["nan"] if is_f else []
     elif excl_name == "zero":
         exv = [0]
@@ -125,7 +137,7 @@ def trim_cases(draw, max_side):
         exv = [-1] + ([2.5] if is_f else [])
     if dtype.startswith("uint"):
         exv = [e for e in exv if not (isinstance(e, (int, float)) and e < 0)]
-    others = [1, 2, 3] + ([0.5, "nan", -1.0] if is_f else [0]) + ([] if dtype.startswith("uint") else [-2])
+    others = [1, 2, 3] + ([0.5, "nan", -1.0] if is_f else [0]) + ([] if dtype.startswith("uint") else [-2]) + ([7, 9] if excl_list else [])
     # kept cells sparse so that borders are trimmed often
     dens = draw(st.sampled_from([1, 2, 6]))
     pool = [v for v in others if v not in exv]
@@ -134,7 +146,7 @@ def trim_cases(draw, max_side):
     elem = st.one_of(*([st.sampled_from(exv)] * dens + [st.sampled_from(pool)]))
     flat = draw(st.lists(elem, min_size=h * w, max_size=h * w))
     # guarantee at least one kept cell by construction
-    excl = [float("nan")] if EXCL[excl_name] is None else dec_list(EXCL[excl_name])
+    excl = dec_list(excl_list) if excl_list else ([float("nan")] if EXCL[excl_name] is None else dec_list(EXCL[excl_name]))
 
     def is_ex(v):
         v = float("nan") if v == "nan" else v
@@ -152,6 +164,8 @@ def trim_cases(draw, max_side):
             "attrs": draw(st.sampled_from([{}, {"res": [1, 1], "unit": "m"}, {"nodata": 0, "k": [1, 2]}])),
             "layout": draw(st.sampled_from(["C", "C", "F", "view", "ro"])),
             "as_tuple": draw(st.booleans())}
+    if excl_list:
+        case["excl_list"] = excl_list
     return case
 
 
